@@ -77,6 +77,7 @@ type FS struct {
 	subs     []*sub
 	NoGates  bool
 	Counters map[string]int
+	users    map[string]bool // ids of simulation tasks that act as the user
 }
 
 type sub struct {
@@ -106,6 +107,18 @@ func current() *FS {
 	f := cur
 	curMu.Unlock()
 	return f
+}
+
+// MarkUserTask makes the calling simulation task a "user": its operations are logged as such and are
+// exempt from the fault plan (faults are aimed at the program under test).
+func (f *FS) MarkUserTask() {
+	id := simrt.SelfID()
+	f.mu.Lock()
+	if f.users == nil {
+		f.users = map[string]bool{}
+	}
+	f.users[id] = true
+	f.mu.Unlock()
 }
 
 // AsUser runs fn with operations attributed to the simulated user (the harness) instead of HIDI.
@@ -154,13 +167,22 @@ func (f *FS) step(kind, p string, n int, mutating bool) (error, int) {
 	if !f.NoGates {
 		simrt.Yield("fs:" + kind)
 	}
+	actor := f.actor
+	if len(f.users) > 0 {
+		id := simrt.SelfID()
+		f.mu.Lock()
+		if f.users[id] {
+			actor = "user"
+		}
+		f.mu.Unlock()
+	}
 	f.mu.Lock()
-	op := Op{Seq: len(f.Ops) + 1, Kind: kind, Path: norm(p), N: n, Mutating: mutating, Actor: f.actor}
-	if mutating && f.actor == "sut" {
+	op := Op{Seq: len(f.Ops) + 1, Kind: kind, Path: norm(p), N: n, Mutating: mutating, Actor: actor}
+	if mutating && actor == "sut" {
 		f.nMut++
 	}
 	var hit *Fault
-	if f.actor == "sut" {
+	if actor == "sut" {
 		for _, ft := range f.Faults {
 			if ft.AtMut > 0 && !(mutating && f.nMut == ft.AtMut) {
 				continue
